@@ -61,6 +61,7 @@ type lm struct {
 	pendingCreated  []lmCreated
 	twinsDiverged   bool
 	staleTips       map[ref.Hash]bool
+	postCut         map[ref.Hash]bool // vertices the truncated node sealed after the cut
 	evalC02         bool // evaluate the conservation oracle after every observation (truncation scenarios)
 }
 
@@ -1083,7 +1084,9 @@ func (m *lm) opBalance() string {
 		}
 	}
 	after, err := m.w.Snapshot(m.w.Nodes[n])
-	if err == nil && after.Digest(true) != dBefore {
+	// with parked orphans the node's own 2 s retry ticker may admit or re-park one at any moment; only a ledger
+	// without parked vertices is guaranteed to be touched by nothing but the query
+	if err == nil && len(before.Parked) == 0 && after.Digest(true) != dBefore {
 		m.addViol("C06", "query-changed-ledger", "node %d: balance query for %s changed the ledger snapshot", n, name)
 	}
 	return fmt.Sprintf("balance(node %d, %s)=%v", n, name, answers)
